@@ -32,6 +32,11 @@ func C12_frame_helpers() {
 	vAssert(vAnd(c.Header.Masked == f.Header.Masked, c.Header.Mask == f.Header.Mask), "fh.mask_fields_kept")
 	vAssert(c.Header.Length == int64(len(c.Payload)), "fh.length_is_payload_length")
 	vAssert(vEqBytes(c.Payload, p), "fh.identity_codec_payload_without_tail")
+	// the result is the caller's: compressing another frame afterwards does not change it
+	q := vBytes("q", 2)
+	c2, err2 := h.CompressFrame(ws.Frame{Header: ws.Header{Fin: true, OpCode: ws.OpBinary, Length: 2}, Payload: q})
+	vAssert(vAnd(err2 == nil, vEqBytes(c2.Payload, q)), "fh.second_compress_ok")
+	vAssert(vEqBytes(c.Payload, p), "fh.result_survives_the_next_compress")
 	d, err := h.DecompressFrame(c)
 	vAssert(err == nil, "fh.decompress_ok")
 	vAssert(vAnd(d.Header == f.Header, vEqBytes(d.Payload, p)), "fh.roundtrip_same_frame")
